@@ -5,3 +5,4 @@ import PvModel.Props.C10
 #print axioms Pv.C10_union_dfs
 #print axioms Pv.C10_frame
 #print axioms Pv.C10_mplus_states
+#print axioms Pv.C10_no_leak
